@@ -22,6 +22,7 @@ func factsMore(x *extractor) {
 	x.factsAds()
 	x.factsVerify()
 	x.factsProto()
+	x.factsWork()
 }
 
 const netceptorGo = "pkg/netceptor/netceptor.go"
@@ -1165,4 +1166,214 @@ func (x *extractor) factsProto() {
 	x.set("adm_empty_id_guard", emptyID)
 	x.set("adm_remove_on_all_exits", removeAll)
 	x.set("proto_dispatch", dispatch)
+}
+
+// ---------------------------------------------------------------- C19 / C15: workceptor decision logic
+
+// callPos returns the position of the first call whose function text ends with suffix within n.
+func (x *extractor) callPos(n ast.Node, suffix string) token.Pos {
+	var pos token.Pos
+	ast.Inspect(n, func(m ast.Node) bool {
+		if c, ok := m.(*ast.CallExpr); ok && pos == 0 && strings.HasSuffix(x.str(c.Fun), suffix) {
+			pos = c.Pos()
+		}
+		return true
+	})
+	return pos
+}
+
+func (x *extractor) factsWork() {
+	const rw, wc, cs = "pkg/workceptor/remote_work.go", "pkg/workceptor/workceptor.go", "pkg/workceptor/controlsvc.go"
+	redactTest, allocTest, allocOrder, cfr, users := "unknown", "unknown", "unknown", "unknown", "unknown"
+	if fd := x.fn(rw, "remoteUnit", "Status"); fd != nil {
+		ast.Inspect(fd, func(n ast.Node) bool {
+			if is, ok := n.(*ast.IfStmt); ok && strings.Contains(x.str(is.Body), "keysToDelete = append(keysToDelete, k)") {
+				redactTest = x.str(is.Cond)
+			}
+			return true
+		})
+		b := x.str(fd.Body)
+		if !strings.Contains(b, "range ed.RemoteParams") || !strings.Contains(b, "delete(ed.RemoteParams, keysToDelete[i])") ||
+			!strings.Contains(b, "status := rw.UnredactedStatus()") {
+			redactTest = "unknown:" + redactTest
+		}
+	}
+	if fd := x.fn(wc, "Workceptor", "AllocateRemoteUnit"); fd != nil {
+		type mark struct {
+			pos  token.Pos
+			name string
+		}
+		var marks []mark
+		ast.Inspect(fd, func(n ast.Node) bool {
+			switch v := n.(type) {
+			case *ast.IfStmt:
+				if strings.Contains(x.str(v.Body), "hasSecrets = true") {
+					allocTest = x.str(v.Cond)
+					marks = append(marks, mark{v.Pos(), "secrets-test"})
+				}
+				if x.str(v.Cond) == `hasSecrets && tlsClient == ""` && strings.Contains(x.str(v.Body), "return nil, fmt.Errorf") {
+					marks = append(marks, mark{v.Pos(), "refuse-without-tls"})
+				}
+			case *ast.CallExpr:
+				if x.str(v.Fun) == "w.AllocateUnit" {
+					marks = append(marks, mark{v.Pos(), "AllocateUnit"})
+				}
+			}
+			return true
+		})
+		sort.Slice(marks, func(i, j int) bool { return marks[i].pos < marks[j].pos })
+		var ms []string
+		for _, m := range marks {
+			ms = append(ms, m.name)
+		}
+		allocOrder = strings.Join(ms, ",")
+	}
+	a, b := "", ""
+	if fd := x.fn(wc, "Workceptor", "unitStatusForCFR"); fd != nil {
+		if rhs := assignRHS(fd, "status"); rhs != nil {
+			a = x.str(rhs)
+		}
+	}
+	if fd := x.fn(wc, "Workceptor", "UnitStatus"); fd != nil {
+		ast.Inspect(fd, func(n ast.Node) bool {
+			if r, ok := n.(*ast.ReturnStmt); ok && len(r.Results) == 2 && x.str(r.Results[1]) == "nil" {
+				b = x.str(r.Results[0])
+			}
+			return true
+		})
+	}
+	cfr = a + ";" + b
+	// who calls UnredactedStatus (other than the Status/UnredactedStatus methods themselves)?
+	var callers []string
+	for _, rel := range []string{rw, wc, cs, "pkg/workceptor/command.go", "pkg/workceptor/workunitbase.go", "pkg/workceptor/kubernetes.go", "pkg/workceptor/python.go"} {
+		f := x.file(rel)
+		if f == nil {
+			continue
+		}
+		for _, d := range f.Decls {
+			fd, ok := d.(*ast.FuncDecl)
+			if !ok || fd.Body == nil || fd.Name.Name == "Status" || fd.Name.Name == "UnredactedStatus" {
+				continue
+			}
+			if x.callPos(fd.Body, ".UnredactedStatus") != 0 {
+				callers = append(callers, fd.Name.Name)
+			}
+		}
+	}
+	sort.Strings(callers)
+	users = strings.Join(callers, ",")
+	x.set("redact_test", redactTest)
+	x.set("redact_alloc_test", allocTest)
+	x.set("redact_alloc_order", allocOrder)
+	x.set("redact_cfr_source", cfr)
+	x.set("redact_unredacted_users", users)
+
+	gate, should, unix, arms, verify := "unknown", "unknown", "unknown", "unknown", "unknown"
+	if fd := x.fn(cs, "workceptorCommand", "processSignature"); fd != nil {
+		var parts []string
+		for _, st := range fd.Body.List {
+			if is, ok := st.(*ast.IfStmt); ok {
+				body := x.str(is.Body)
+				switch {
+				case strings.Contains(body, "did not expect a signature"):
+					parts = append(parts, x.str(is.Cond)+":refuse")
+				case strings.Contains(body, "c.w.VerifySignature(signature)") && strings.Contains(body, "return err"):
+					parts = append(parts, x.str(is.Cond)+":VerifySignature")
+				default:
+					parts = append(parts, x.str(is.Cond)+":?")
+				}
+			}
+		}
+		gate = strings.Join(parts, ";")
+	}
+	if fd := x.fn(wc, "Workceptor", "ShouldVerifySignature"); fd != nil {
+		var parts []string
+		for _, st := range fd.Body.List {
+			if is, ok := st.(*ast.IfStmt); ok {
+				c := x.str(is.Cond)
+				body := x.str(is.Body)
+				if c == `workType == "remote"` && strings.Contains(body, "return signWork") {
+					parts = append(parts, "remote:signWork")
+				} else if strings.Contains(body, "return true") {
+					parts = append(parts, c)
+				}
+			}
+		}
+		should = strings.Join(parts, ";")
+	}
+	if fd := x.fn(cs, "workceptorCommand", "ControlFunc"); fd != nil {
+		ast.Inspect(fd, func(n ast.Node) bool {
+			if is, ok := n.(*ast.IfStmt); ok && strings.Contains(x.str(is.Body), "connIsUnix = true") {
+				unix = x.str(is.Cond)
+			}
+			return true
+		})
+		var parts []string
+		ast.Inspect(fd, func(n ast.Node) bool {
+			cc, ok := n.(*ast.CaseClause)
+			if !ok || len(cc.List) == 0 {
+				return true
+			}
+			var labels []string
+			for _, l := range cc.List {
+				labels = append(labels, strings.Trim(x.str(l), "\""))
+			}
+			g := x.callPos(cc, "c.processSignature")
+			if g == 0 {
+				return true
+			}
+			var before, after []string
+			for _, name := range []string{"findUnit", "AllocateUnit", "AllocateRemoteUnit", "unit.Cancel", "unit.Release", "GetResults"} {
+				if p := x.callPos(cc, name); p != 0 {
+					short := strings.TrimPrefix(name, "unit.")
+					if p < g {
+						before = append(before, short)
+					} else {
+						after = append(after, short)
+					}
+				}
+			}
+			s := strings.Join(labels, ",") + ":"
+			if len(before) > 0 {
+				s += strings.Join(before, ",") + "<"
+			}
+			s += "gate<" + strings.Join(after, ",")
+			parts = append(parts, s)
+			return true
+		})
+		arms = strings.Join(parts, ";")
+	}
+	if fd := x.fn(wc, "Workceptor", "VerifySignature"); fd != nil {
+		var parts []string
+		ast.Inspect(fd, func(n ast.Node) bool {
+			switch v := n.(type) {
+			case *ast.IfStmt:
+				c := x.str(v.Cond)
+				ret := strings.Contains(x.str(v.Body), "return fmt.Errorf")
+				switch {
+				case c == `signature == ""` && ret:
+					parts = append(parts, "empty")
+				case c == `w.VerifyingKey == ""` && ret:
+					parts = append(parts, "nokey")
+				case c == "!token.Valid" && ret:
+					parts = append(parts, "!token.Valid")
+				}
+			case *ast.CallExpr:
+				f := x.str(v.Fun)
+				if f == "jwt.ParseWithClaims" {
+					parts = append(parts, "ParseWithClaims")
+				}
+				if f == "claims.VerifyAudience" {
+					parts = append(parts, "VerifyAudience("+x.str(v.Args[0])+", "+x.str(v.Args[1])+")")
+				}
+			}
+			return true
+		})
+		verify = strings.Join(parts, ";")
+	}
+	x.set("sig_gate", gate)
+	x.set("sig_should", should)
+	x.set("sig_unix", unix)
+	x.set("sig_arms", arms)
+	x.set("sig_verify", verify)
 }
